@@ -4,7 +4,7 @@
    MinLen <= |w| <= MaxLen, against every base.
    One TLC step per iteration of the parser loop.  The constants are supplied by a generated module
    (bin/check writes <family>.tla/.cfg from its family table; cfg files cannot hold tuples). *)
-EXTENDS UrlInvariants, Json
+EXTENDS Options, Json
 CONSTANTS Alphabet,   \* set of code points
           MaxLen,     \* max length of the enumerated middle part
           MinLen,
@@ -54,6 +54,11 @@ LawQuery == Ok => LET r == Res(Some(ps.u), <<63, 113>>) IN
 LawScheme == Ok => \A ref \in {<<97>>, <<47, 97>>, <<47, 47, 97>>, <<46, 46>>, <<92, 97>>, <<58>>, <<49, 58>>} :
                 LET r == Res(Some(ps.u), ref) IN r.res = "ok" => r.u.scheme = ps.u.scheme
 LawOpaqueBase == Ok /\ ps.u.opaque => \A ref \in {<<97>>, <<47>>, <<63>>, <<>>, <<46>>, <<47, 47, 104>>} : Res(Some(ps.u), ref).res = "fail"
+
+(* ---- C16 design check: on the specification every modelled trigger is sufficient - an input (and base) that does
+        not contain the trigger parses identically with and without the option ---- *)
+TriggersSufficient == Done => \A n \in {"single_pct", "collapse", "skip_drive", "special_gopher"} :
+                                 TriggerSufficient(n, raw, bstr, IF bstr = None THEN None ELSE Some(BaseRec[Get(bstr)].u))
 
 (* ---- emission: one expected behaviour per terminal state ---- *)
 Emit == Done => PrintT(ToJson([t |-> "p", in |-> raw, bs |-> bstr, fail |-> ps.res = "fail",
